@@ -168,8 +168,10 @@ class HavlinClimateNetwork(ClimateNetwork):
             #  +max_delay.
             #  Correlation values at negative lag are now stored left of the
             #  correlation values at positive lag.
-            cc_one_to_all = np.concatenate((cc_one_to_all[-max_delay:-1, :],
-                                            cc_one_to_all[0:max_delay, :]))
+            n_lags = cc_one_to_all.shape[0]
+            cc_one_to_all = np.concatenate(
+                (cc_one_to_all[n_lags-max_delay:, :],
+                 cc_one_to_all[0:max_delay+1, :]))
 
             #  Consider only absolute values
             cc_one_to_all = np.abs(cc_one_to_all)
